@@ -159,11 +159,11 @@ Proof.
   - unfold V. cbn [vwf st with_store envs]. rewrite tget_tset_same. discriminate.
 Qed.
 
-Lemma np_dec_ip s : wfm s -> ipge s -> npo0 s (dec_ip s) T_.
+Lemma np_dec_ip s : wfm s -> ipge s -> npo0 s (dec_ip s) (fun s' _ => lamcell s' (fst (ip s'))).
 Proof.
   intros W Hi. unfold dec_ip. destruct (snd (ip s) =? 0) eqn:E.
   - apply N.eqb_eq in E. destruct Hi as [Hi _]. lia.
-  - cbn [npost0]. split; [apply wfm_with_ip, W|]. split; [apply grow0_with_ip|exact I].
+  - cbn [npost0]. split; [apply wfm_with_ip, W|]. split; [apply grow0_with_ip|exact (proj2 Hi)].
 Qed.
 
 (* ------------------------------------------------------------------ continuations *)
@@ -204,7 +204,7 @@ Proof.
 Qed.
 
 Lemma np_restore_continuation cid s : wfm s -> vwf s (VCont cid) ->
-  npo s (restore_continuation cid s) (fun s' _ => lamcell s' (fst (ip s'))).
+  npo s (restore_continuation cid s) (fun s' _ => ipge s').
 Proof.
   intros W Hv. unfold restore_continuation. cbn [vwf] in Hv.
   destruct (tget (conts (st s)) cid) as [k|] eqn:E; [|congruence].
@@ -221,8 +221,27 @@ Proof.
       right; apply (w_vals s W); eapply ip_cont; eassumption
   | |- _ \/ vwf _ VUndef => right; exact I
   | |- ipge _ -> ipge _ => intros _; split; [exact Hk2|exact Hk1]
-  | |- lamcell _ _ => exact Hk1
+  | |- ipge _ => split; [exact Hk2|exact Hk1]
   | |- wfm _ => exact W
   | |- _ => idtac
   end.
 Qed.
+
+(* binds whose first part may leave ip at index 0 (dec_ip), followed by a plain return *)
+Lemma npost0_bind_0 {X Y} s (m : M X) (f : X -> M Y) Q (R : vm -> Y -> Prop) :
+  npo0 s (m s) Q ->
+  (forall a s1, wfm s1 -> grow0 s s1 -> Q s1 a ->
+     match f a s1 with ROk b s2 => wfm s2 /\ grow0 s1 s2 /\ R s2 b | _ => False end) ->
+  npo0 s (bindM m f s) R.
+Proof.
+  intros Hm Hf. unfold bindM. destruct (m s) as [a s1|e msg s1|k|]; cbn [npost0] in *; auto.
+  destruct Hm as (W1 & G1 & HQ). specialize (Hf a s1 W1 G1 HQ).
+  destruct (f a s1) as [b s2|e msg s2|k|]; cbn [npost0] in *; try contradiction.
+  destruct Hf as (W2 & G2 & HR). split; [exact W2|split; [eapply grow0_trans; eassumption|exact HR]].
+Qed.
+Lemma npost0_ret0 {X} s (a : X) (R : vm -> X -> Prop) : wfm s -> R s a ->
+  match ret a s with ROk b s2 => wfm s2 /\ grow0 s s2 /\ R s2 b | _ => False end.
+Proof. intros W H. cbn. split; [exact W|split; [apply grow0_refl|exact H]]. Qed.
+Lemma npost0_weaken {X} s (r : res X) (Q Q' : vm -> X -> Prop) :
+  (forall s' a, wfm s' -> Q s' a -> Q' s' a) -> npo0 s r Q -> npo0 s r Q'.
+Proof. intros H. destruct r; cbn; auto. intros (W & G & HQ). auto. Qed.
